@@ -75,6 +75,13 @@ static void gen_with(uint64_t seed, const std::string &prop, Plan &plan, const G
         p[strf("s%d_nb", c)] = r.chance(0.7);
         p[strf("c%d_spec", c)] = r.chance(0.5);
         p[strf("s%d_spec", c)] = r.chance(0.5);
+        // application styles the contract allows: relying on the awaited condition being sticky
+        // (xcm_await only when it changes) and driving establishment with xcm_finish alone
+        p[strf("c%d_sticky", c)] = r.chance(0.3);
+        p[strf("s%d_sticky", c)] = r.chance(0.3);
+        p[strf("c%d_ff", c)] = r.chance(0.3);
+        bool both_nb = p[strf("c%d_nb", c)] && p[strf("s%d_nb", c)];
+        bool had_duplex = false;
         int ct = T_CLIENT0 + c, st = T_SCONN0 + c;
         plan.ops.push_back(Op{ct, "connect", {}, "", {}, -1});
         int nev = (int)r.range(1, gp.max_events);
@@ -82,6 +89,29 @@ static void gen_with(uint64_t seed, const std::string &prop, Plan &plan, const G
         int idx[2] = {0, 0};
         int dir = (int)r.below(2);
         for (int e = 0; e < nev && left > 0; e++) {
+            if (both_nb && gp.noise && r.chance(0.22)) {
+                // full-duplex burst: both ends send several messages (or a byte run) while receiving the
+                // other's - the awaited condition is SENDABLE|RECEIVABLE and back-pressure can build both ways
+                int grp = ++gid;
+                had_duplex = true;
+                if (stream) {
+                    int64_t la = (int64_t)std::min<size_t>(pick_len(r, left) * 3, left); left -= (size_t)la;
+                    int64_t lb = left ? (int64_t)std::min<size_t>(pick_len(r, left) * 3, left) : 0; left -= (size_t)lb;
+                    int64_t chunk = 1 + (int64_t)r.below(70000), cap = 1 + (int64_t)r.below(65536);
+                    plan.ops.push_back(Op{ct, "sduplex", {la, lb, chunk, cap}, "", {}, grp});
+                    plan.ops.push_back(Op{st, "sduplex", {lb, la, chunk, cap}, "", {}, grp});
+                } else {
+                    Op a{ct, "duplex", {0, c, idx[0], 0}, "", {}, grp}, b{st, "duplex", {1, c, idx[1], 0}, "", {}, grp};
+                    int ka = (int)r.range(1, 4), kb = (int)r.range(1, 4);
+                    for (int i = 0; i < ka && left > 0; i++) { size_t l = pick_len(r, left); left -= l; a.n.push_back((int64_t)l); idx[0]++; }
+                    for (int i = 0; i < kb && left > 0; i++) { size_t l = pick_len(r, left); left -= l; b.n.push_back((int64_t)l); idx[1]++; }
+                    a.n[3] = (int64_t)b.n.size() - 4;
+                    b.n[3] = (int64_t)a.n.size() - 4;
+                    plan.ops.push_back(a);
+                    plan.ops.push_back(b);
+                }
+                continue;
+            }
             if (r.chance(0.45)) dir = !dir;
             size_t len = gp.small ? std::min(pick_len_small(r), left) : pick_len(r, left);
             left -= len;
@@ -111,7 +141,7 @@ static void gen_with(uint64_t seed, const std::string &prop, Plan &plan, const G
             if (r.chance(0.15)) plan.ops.push_back(Op{r.chance(0.5) ? ct : st, "tryrecv", {65535}, "", {}});
             if (r.chance(0.10)) plan.ops.push_back(Op{r.chance(0.5) ? ct : st, "await", {(int64_t)r.below(4)}, "", {}});
             if (r.chance(0.05)) plan.ops.push_back(Op{r.chance(0.5) ? ct : st, "sleep", {(int64_t)r.below(3000)}, "", {}});
-            if (r.chance(0.04)) plan.ops.push_back(Op{r.chance(0.5) ? ct : st, "setblk", {(int64_t)r.below(2)}, "", {}});
+            if (!had_duplex && !both_nb && r.chance(0.04)) plan.ops.push_back(Op{r.chance(0.5) ? ct : st, "setblk", {(int64_t)r.below(2)}, "", {}});
         }
         int closer = r.chance(0.5) ? ct : st, other = closer == ct ? st : ct;
         plan.ops.push_back(Op{closer, "finish", {1}, "", {}, -1});
@@ -170,6 +200,8 @@ struct Script {
     XSock *x = nullptr;
     std::vector<std::pair<int, const Op *>> ops;   // (index in plan, op)
     bool spec = true;
+    bool sticky = false;         // rely on the awaited condition staying in effect (xcm_await only when it changes)
+    int last_cond = -1;
     std::deque<int> stash;       // messages already obtained by a speculative receive (their lengths)
     bool failed = false;         // a terminal condition ended the script early
     int eof_errno = 0;           // recv_eof: the close was reported as this errno instead of 0
@@ -181,7 +213,8 @@ enum WaitRc { W_OK, W_STOP };
 
 static WaitRc wait_for(Script &sc, int cond) {
     if (!sc.x->nonblocking) return W_OK;
-    x_await(sc.x, cond);
+    if (!sc.sticky || sc.last_cond != cond) x_await(sc.x, cond);
+    sc.last_cond = cond;
     if (!x_wait(sc.x)) return W_STOP;
     return W_OK;
 }
@@ -275,6 +308,82 @@ static bool do_stream_recv(Script &sc, const Op &op) {
     return true;
 }
 
+// Full-duplex burst on a non-blocking socket: send k messages while receiving n, awaiting both conditions.
+static bool do_duplex(Script &sc, const Op &op) {
+    int dir = (int)op.arg(0), conn = (int)op.arg(1), first = (int)op.arg(2);
+    size_t nrecv = (size_t)op.arg(3), nsend = op.n.size() > 4 ? op.n.size() - 4 : 0, si = 0, ri = 0;
+    std::unique_ptr<uint8_t[]> buf(new uint8_t[65535]);
+    bool first_round = true;
+    while (!sc.stash.empty() && ri < nrecv) { sc.stash.pop_front(); ri++; }
+    if (!sc.x->nonblocking) {
+        // (only reachable if the mode was switched by hand) sequential fallback: connector sends first
+        G->count("probe.duplex_blocking_fallback");
+    }
+    while (si < nsend || ri < nrecv) {
+        if (G->stopping) return false;
+        int cond = (si < nsend ? XCM_SO_SENDABLE : 0) | (ri < nrecv ? XCM_SO_RECEIVABLE : 0);
+        if (!(sc.spec && first_round)) { if (wait_for(sc, cond) == W_STOP) return false; }
+        first_round = false;
+        // which of the two operations comes first after a wake-up is the application's business: seeded
+        bool send_first = G->r_app.chance(0.5);
+        for (int k = 0; k < 2; k++) {
+            bool do_send = (k == 0) == send_first;
+            if (do_send && si < nsend) {
+                std::string m = make_payload(G->plan.seed, conn, dir, first + (int)si, (size_t)op.n[4 + si]);
+                int rc = x_send(sc.x, m.data(), m.size());
+                if (rc >= 0) si++;
+                else if (errno != EAGAIN && errno != EINTR) { sc.failed = true; return false; }
+                else G->count("probe.send_eagain");
+            }
+            if (!do_send && ri < nrecv) {
+                int rc = x_receive(sc.x, buf.get(), 65535);
+                if (rc > 0) ri++;
+                else if (rc == 0) { sc.failed = true; return false; }
+                else if (errno != EAGAIN && errno != EINTR) { sc.failed = true; return false; }
+            }
+        }
+        G->count("probe.duplex_round");
+    }
+    return true;
+}
+
+static bool do_stream_duplex(Script &sc, const Op &op) {
+    size_t tsend = (size_t)op.arg(0), trecv = (size_t)op.arg(1), chunk = (size_t)std::max<int64_t>(1, op.arg(2)), cap = (size_t)std::max<int64_t>(1, op.arg(3));
+    size_t sent = 0, got = 0;
+    std::string offer;
+    bool first_round = true;
+    while (sent < tsend || got < trecv) {
+        if (G->stopping) return false;
+        int cond = (sent < tsend ? XCM_SO_SENDABLE : 0) | (got < trecv ? XCM_SO_RECEIVABLE : 0);
+        if (!(sc.spec && first_round)) { if (wait_for(sc, cond) == W_STOP) return false; }
+        first_round = false;
+        bool send_first = G->r_app.chance(0.5);
+        for (int k = 0; k < 2; k++) {
+            bool do_send = (k == 0) == send_first;
+            if (do_send && sent < tsend) {
+                size_t want = std::min(chunk, tsend - sent);
+                // a refused offer is retried with the same bytes (the other retry policies are exercised by "ssend")
+                if (offer.size() != want) offer = make_payload(G->plan.seed ^ 0x5757, sc.x->idx, 7, (int)CX->fresh_counter++, want);
+                int rc = x_send(sc.x, offer.data(), offer.size());
+                if (rc > 0) { sent += (size_t)rc; offer.clear(); }
+                else if (rc == 0) { sc.failed = true; return false; }
+                else if (errno != EAGAIN && errno != EINTR) { sc.failed = true; return false; }
+                else G->count("probe.send_eagain");
+            }
+            if (!do_send && got < trecv) {
+                size_t c = std::min(cap, trecv - got);
+                std::unique_ptr<uint8_t[]> b(new uint8_t[c]);
+                int rc = x_receive(sc.x, b.get(), c);
+                if (rc > 0) got += (size_t)rc;
+                else if (rc == 0) { sc.failed = true; return false; }
+                else if (errno != EAGAIN && errno != EINTR) { sc.failed = true; return false; }
+            }
+        }
+        G->count("probe.duplex_round");
+    }
+    return true;
+}
+
 static bool do_finish(Script &sc, bool must) {
     if (!sc.x->nonblocking) return true;   // blocking sockets have finished by definition (xcm_finish gives EINVAL)
     for (;;) {
@@ -311,7 +420,8 @@ static void probe_terminal(Script &sc) {
 static void run_script(Script &sc) {
     XSock *x = sc.x;
     int data_left = 0;
-    for (auto &io : sc.ops) { const std::string &k = io.second->kind; if (k == "send" || k == "recv" || k == "ssend" || k == "srecv") data_left++; }
+    auto is_data = [](const std::string &k) { return k == "send" || k == "recv" || k == "ssend" || k == "srecv" || k == "duplex" || k == "sduplex"; };
+    for (auto &io : sc.ops) if (is_data(io.second->kind)) data_left++;
     for (auto &io : sc.ops) {
         if (G->stopping) break;
         if (sc.failed) {
@@ -320,13 +430,15 @@ static void run_script(Script &sc) {
             break;
         }
         const Op &op = *io.second;
-        { const std::string &k = op.kind; if (k == "send" || k == "recv" || k == "ssend" || k == "srecv") data_left--; }
+        if (is_data(op.kind)) data_left--;
         arm_faults(op.faults, io.first);
         bool ok = true;
         if (op.kind == "send") ok = do_send_msg(sc, op);
         else if (op.kind == "recv") ok = do_recv_msg(sc, op);
         else if (op.kind == "ssend") ok = do_stream_send(sc, op);
         else if (op.kind == "srecv") ok = do_stream_recv(sc, op);
+        else if (op.kind == "duplex") ok = do_duplex(sc, op);
+        else if (op.kind == "sduplex") ok = do_stream_duplex(sc, op);
         else if (op.kind == "finish") ok = do_finish(sc, op.arg(0) != 0);
         else if (op.kind == "tryrecv") {
             if (x->nonblocking && !CX->stream) {
@@ -340,12 +452,14 @@ static void run_script(Script &sc) {
         } else if (op.kind == "await") {
             if (x->nonblocking) {
                 x_await(x, (int)op.arg(0) & 3);
+                sc.last_cond = (int)op.arg(0) & 3;
                 struct pollfd p = {x_fd(x), POLLIN, 0};
                 k::poll(&p, 1, 0);
             }
         } else if (op.kind == "sleep") task_sleep(op.arg(0) * US);
         else if (op.kind == "setblk") {
             bool want_blocking = op.arg(0) != 0;
+            sc.last_cond = -1;
             if (x_set_blocking(x, want_blocking) < 0 && terminal_errno(errno)) sc.failed = true;
         } else if (op.kind == "recv_eof") {
             // the peer closes after its last send: we must see every message, then 0 (C06 orderly close)
@@ -464,6 +578,7 @@ static void setup(const Plan &plan) {
             bool want_nb = pl->P(strf("s%d_nb", ci)) != 0;
             bool spec = pl->P(strf("s%d_spec", ci)) != 0;
             Script *sc = make_script(*pl, T_SCONN0 + ci, c, spec, c->label);
+            sc->sticky = pl->P(strf("s%d_sticky", ci)) != 0;
             G->spawn(c->label, [sc, want_nb] {
                 if (sc->x->nonblocking != want_nb) { if (x_set_blocking(sc->x, !want_nb) < 0) { sc->failed = true; } }
                 run_script(*sc);
@@ -488,12 +603,15 @@ static void setup(const Plan &plan) {
             disarm_faults();
             if (cattrs) xcm_attr_map_destroy(cattrs);
             if (!x->s) {
+                if (G->stopping) return;   // the run is being unwound: every wait is interrupted
                 if (pl->P("variant")) { G->count("probe.connect_failed_in_variant"); CX->client_gone = true; return; }   // an injected fault may legitimately end the attempt
                 G->violation("HARNESS.connect", "xcm_connect(%s) failed: %s", CX->addr.c_str(), strerror(errno));
                 return;
             }
             if (pl->P("cut_dir", -1) == 0) x->dying = true;
             Script *sc = make_script(*pl, T_CLIENT0 + c, x, spec, x->label);
+            sc->sticky = pl->P(strf("c%d_sticky", c)) != 0;
+            if (pl->P(strf("c%d_ff", c)) && x->nonblocking) { G->count("probe.finish_first"); if (!do_finish(*sc, true) && !G->stopping) sc->failed = true; }
             run_script(*sc);
         }, 1, netns);
     }
@@ -534,6 +652,28 @@ static void finalize(const Plan &plan, EndReason r) {
 
         }
     }
+    // C17: both ends idle and flushed -> the sender's to_lower, the receiver's from_lower and what the
+    // applications really exchanged agree (messages and bytes), on every transport alike
+    if (r == EndReason::ALL_DONE && XO.check_counters && !plan.P("variant")) {
+        for (auto &sc : *scripts) {
+            XSock *x = sc->x, *p = x->peer;
+            if (!p || !sc->done || !x->final_valid || !p->final_valid || !judged_sock(x) || !judged_sock(p) || x->conn_failed_send || p->conn_failed_send) continue;
+            bool peer_done = false;
+            for (auto &o : *scripts) if (o->x == p && o->done) peer_done = true;
+            if (!peer_done) continue;
+            G->count("probe.cross_counter_check");
+            const int64_t *a = x->final_cnt, *b = p->final_cnt;   // index: 0 to_app_b 1 from_app_b 2 to_lower_b 3 from_lower_b 4 to_app_m 5 from_app_m 6 to_lower_m 7 from_lower_m
+            int64_t sent_bytes = 0;
+            for (size_t l : x->sent_lens) sent_bytes += (int64_t)l;
+            if (x->bytestream) sent_bytes = (int64_t)x->stream_sent;
+            if (a[2] != a[1] || (!x->bytestream && a[6] != a[5]))
+                G->violation("C17.flushed", "%s: idle and flushed (xcm_finish == 0) but to_lower %lld bytes/%lld msgs != from_app %lld/%lld", x->label.c_str(), (long long)a[2], (long long)a[6], (long long)a[1], (long long)a[5]);
+            if (b[3] != a[2] || (!x->bytestream && b[7] != a[6]))
+                G->violation("C17.cross", "%s -> %s: sender to_lower %lld bytes/%lld msgs, receiver from_lower %lld bytes/%lld msgs", x->label.c_str(), p->label.c_str(), (long long)a[2], (long long)a[6], (long long)b[3], (long long)b[7]);
+            if (b[3] != sent_bytes || (!x->bytestream && b[7] != (int64_t)x->sent_ok))
+                G->violation("C17.exchanged", "%s -> %s: the applications exchanged %lld bytes in %llu messages, receiver from_lower says %lld bytes/%lld msgs", x->label.c_str(), p->label.c_str(), (long long)sent_bytes, (unsigned long long)x->sent_ok, (long long)b[3], (long long)b[7]);
+        }
+    }
     // non-triviality: some frame/header/byte run was completed over more than one lower call, or a send was refused
     g_run_nontrivial = G->stat["probe.partial_send"] + G->stat["probe.hdr_split_read"] + G->stat["probe.send_eagain"] + G->stat["probe.sndbuf_full"] +
                            G->stat["fault.short_read"] + G->stat["fault.short_write"] + G->stat["probe.segmented_send"] > 0;
@@ -550,6 +690,12 @@ static Script *script_of_task(int task) {
 static void setup_term(const Plan &plan) {
     setup(plan);
     XO.check_refusal = plan.prop == "C03";
+    if (plan.prop == "C03") {
+        // exactly-once delivery of every send that returned success is C03's own statement, faults or not
+        G->alias["C01.phantom"] = "C03.duplicate_or_phantom";
+        G->alias["C01.lost"] = "C03.accepted_not_delivered";
+        G->alias["C02.lost"] = "C03.accepted_not_delivered";
+    }
     if (plan.P("variant")) {
         // in a variant run the injected fault is the subject: what the delivery and liveness oracles see is this property's
         if (plan.prop == "C03") {
